@@ -273,6 +273,7 @@ Qed.
 
 Section Step13.
 Variable capdb : N -> capture.
+Variable bad : N -> bool.
 Variable rf : bool.
 Variable merge : list file -> list entry.
 
@@ -341,7 +342,7 @@ Qed.
 Lemma length_app_eq_nil : forall (A : Type) (q ks : list A), length (q ++ ks) = length ks -> q = [].
 Proof. intros A q ks H. rewrite app_length in H. destruct q; [reflexivity|simpl in H; lia]. Qed.
 
-Lemma step_import_ok : forall ks st, inv13 st -> inv13 (step capdb rf merge st (AImport ks)).
+Lemma step_import_ok : forall ks st, inv13 st -> inv13 (step capdb bad rf merge st (AImport ks)).
 Proof.
   intros ks st I. simpl. destruct ks as [|k ks']; [exact I|].
   set (ks := k :: ks') in *.
@@ -357,7 +358,7 @@ Proof.
   - simpl. destruct (queue st); discriminate.
 Qed.
 
-Lemma step_view_ok : forall v st, inv13 st -> inv13 (step capdb rf merge st (AView v)).
+Lemma step_view_ok : forall v st, inv13 st -> inv13 (step capdb bad rf merge st (AView v)).
 Proof.
   intros v st I. simpl. destruct (view_of v (views st)); [exact I|].
   destruct I as [C F P1 Q IS MS].
@@ -370,7 +371,7 @@ Proof.
     destruct H; [left|right; auto]. lia.
 Qed.
 
-Lemma step_read_ok : forall v st, inv13 st -> inv13 (step capdb rf merge st (ARead v)).
+Lemma step_read_ok : forall v st, inv13 st -> inv13 (step capdb bad rf merge st (ARead v)).
 Proof.
   intros v st I. simpl. destruct (view_of v (views st)) as [[|f s]|] eqn:Hv; try exact I.
   destruct rf; [|exact I].
@@ -385,7 +386,7 @@ Proof.
     destruct H; [left|right; auto]. lia.
 Qed.
 
-Lemma step_release_ok : forall v st, inv13 st -> inv13 (step capdb rf merge st (ARelease v)).
+Lemma step_release_ok : forall v st, inv13 st -> inv13 (step capdb bad rf merge st (ARelease v)).
 Proof.
   intros v st I. simpl. destruct (view_of v (views st)) as [s|] eqn:Hv; [|exact I].
   destruct I as [C F P1 Q IS MS].
@@ -400,20 +401,20 @@ Qed.
 Lemma tj_files_invalidate : forall h o, tj_files (invalidate_tj h o) = tj_files o.
 Proof. intros h [[snap ph v]|]; reflexivity. Qed.
 
-Lemma step_tagdel_ok : forall u h st, inv13 st -> inv13 (step capdb rf merge st (ATagDel u h)).
+Lemma step_tagdel_ok : forall u h st, inv13 st -> inv13 (step capdb bad rf merge st (ATagDel u h)).
 Proof.
   intros u h st I. simpl. destruct (ntags st =? 0); [exact I|].
   apply (invx_same [] st); auto; simpl; [apply tj_files_invalidate|apply (i_queue _ _ I)].
 Qed.
 
-Lemma step_tagupd_ok : forall u h st, inv13 st -> inv13 (step capdb rf merge st (ATagUpd u h)).
+Lemma step_tagupd_ok : forall u h st, inv13 st -> inv13 (step capdb bad rf merge st (ATagUpd u h)).
 Proof.
   intros u h st I. simpl. destruct (ntags st =? 0); [exact I|].
   apply start_tagging_ok.
   apply (invx_same [] st); auto; simpl; [apply tj_files_invalidate|apply (i_queue _ _ I)].
 Qed.
 
-Lemma step_tagadd_ok : forall st, inv13 st -> inv13 (step capdb rf merge st ATagAdd).
+Lemma step_tagadd_ok : forall st, inv13 st -> inv13 (step capdb bad rf merge st ATagAdd).
 Proof.
   intros st I. simpl. apply start_tagging_ok.
   apply (invx_same [] st); auto. simpl. apply (i_queue _ _ I).
@@ -432,11 +433,11 @@ Qed.
 Lemma occ_single : forall u v es, occ u [mkFile v es] = if v =? u then 1 else 0.
 Proof. intros. simpl. lia. Qed.
 
-Lemma step_start_import_ok : forall st, inv13 st -> inv13 (step capdb rf merge st (AStart KImport)).
+Lemma step_start_import_ok : forall st, inv13 st -> inv13 (step capdb bad rf merge st (AStart KImport)).
 Proof.
   intros st I. simpl.
-  destruct (ijob st) as [[caps nx snap [|] cr un]|] eqn:Hj; try exact I.
-  destruct (from_pcap capdb (known st) caps snap) as [[es usednew] allk].
+  destruct (ijob st) as [[caps nx snap [|] cr un np]|] eqn:Hj; try exact I.
+  destruct (from_pcap capdb bad (known st) caps snap) as [[es usednew] allk].
   pose proof (i_ijstart _ _ I _ Hj eq_refl) as Hcr. simpl in Hcr. subst cr.
   destruct I as [C F P1 Q IS MS].
   set (created := match es with [] => [] | _ => [mkFile (next_uid st) es] end).
@@ -467,7 +468,7 @@ Proof.
   - intros j E. inversion E; subst. simpl. discriminate.
 Qed.
 
-Lemma step_start_merge_ok : forall st, inv13 st -> inv13 (step capdb rf merge st (AStart KMerge)).
+Lemma step_start_merge_ok : forall st, inv13 st -> inv13 (step capdb bad rf merge st (AStart KMerge)).
 Proof.
   intros st I. simpl.
   destruct (mjob st) as [[off snap [|] mg]|] eqn:Hj; try exact I.
@@ -507,7 +508,7 @@ Proof.
   - intros j E. inversion E; subst. simpl. discriminate.
 Qed.
 
-Lemma step_start_tag_ok : forall st, inv13 st -> inv13 (step capdb rf merge st (AStart KTag)).
+Lemma step_start_tag_ok : forall st, inv13 st -> inv13 (step capdb bad rf merge st (AStart KTag)).
 Proof.
   intros st I. simpl.
   destruct (tjob st) as [[snap [|] vv]|] eqn:Hj; try exact I.
@@ -518,7 +519,7 @@ Proof.
 Qed.
 
 
-Lemma step_complete_tag_ok : forall st, inv13 st -> inv13 (step capdb rf merge st (AComplete KTag)).
+Lemma step_complete_tag_ok : forall st, inv13 st -> inv13 (step capdb bad rf merge st (AComplete KTag)).
 Proof.
   intros st I. simpl.
   destruct (tjob st) as [[snap [|] vv]|] eqn:Hj; try exact I.
@@ -529,7 +530,7 @@ Proof.
   - intros u H. apply F. hsimpl. rewrite Hj in *. simpl in *. destruct H; [left|right; auto]. lia.
 Qed.
 
-Lemma step_complete_merge_ok : forall st, inv13 st -> inv13 (step capdb rf merge st (AComplete KMerge)).
+Lemma step_complete_merge_ok : forall st, inv13 st -> inv13 (step capdb bad rf merge st (AComplete KMerge)).
 Proof.
   intros st I. simpl.
   destruct (mjob st) as [[off snap [|] mg]|] eqn:Hj; try exact I.
@@ -567,10 +568,10 @@ Proof.
     + intros j E. discriminate.
 Qed.
 
-Lemma step_complete_import_ok : forall st, inv13 st -> inv13 (step capdb rf merge st (AComplete KImport)).
+Lemma step_complete_import_ok : forall st, inv13 st -> inv13 (step capdb bad rf merge st (AComplete KImport)).
 Proof.
   intros st I. simpl.
-  destruct (ijob st) as [[caps nx snap [|] cr un]|] eqn:Hj; try exact I.
+  destruct (ijob st) as [[caps nx snap [|] cr un np]|] eqn:Hj; try exact I.
   apply start_merge_ok. apply start_tagging_ok.
   match goal with |- invx [] (match ?qq with [] => ?s1 | _ => _ end) => set (st1 := s1) end.
   assert (I1 : inv13 st1).
@@ -593,15 +594,15 @@ Proof.
       destruct H; [left|right]; lia.
     - intros u. specialize (P1 u). rewrite Ep in P1. unfold pending_files. simpl. fold mm. lia.
     - intros j E. discriminate. }
-  assert (Hq1 : queue st1 = skipn (length caps) (queue st)) by reflexivity.
+  assert (Hq1 : queue st1 = skipn np (queue st)) by reflexivity.
   assert (Hij : ijob st1 = None) by reflexivity.
   clearbody st1.
-  destruct (skipn (length caps) (queue st)) eqn:Hq; [exact I1|].
+  destruct (skipn np (queue st)) eqn:Hq; [exact I1|].
   apply launch_import_ok; [exact I1|exact Hij|].
   rewrite Hq1. discriminate.
 Qed.
 
-Theorem step_inv13 : forall st a, inv13 st -> inv13 (step capdb rf merge st a).
+Theorem step_inv13 : forall st a, inv13 st -> inv13 (step capdb bad rf merge st a).
 Proof.
   intros st a I. destruct a as [ks|v|v|v| |u h|u h|k|k].
   - apply step_import_ok; auto.
@@ -625,9 +626,9 @@ Proof.
   - intros u. unfold holders, pending_files. simpl. lia.
 Qed.
 
-Theorem run_inv13 : forall acts, inv13 (fold_left (step capdb rf merge) acts init).
+Theorem run_inv13 : forall acts, inv13 (fold_left (step capdb bad rf merge) acts init).
 Proof.
-  intros acts. assert (G : forall st, inv13 st -> inv13 (fold_left (step capdb rf merge) acts st)).
+  intros acts. assert (G : forall st, inv13 st -> inv13 (fold_left (step capdb bad rf merge) acts st)).
   { induction acts; simpl; intros; auto. apply IHacts. apply step_inv13. auto. }
   apply G. apply inv13_init.
 Qed.
@@ -652,6 +653,7 @@ Proof. reflexivity. Qed.
 
 Section Step13b.
 Variable capdb : N -> capture.
+Variable bad : N -> bool.
 Variable rf : bool.
 Variable merge : list file -> list entry.
 
@@ -662,7 +664,7 @@ Proof.
   intros st u I H. destruct (i_cons _ _ I) as (_ & _ & C). specialize (C u H). unfold holders in C. lia.
 Qed.
 
-Lemma step_uniq : forall st a, inv13 st -> uniq st -> uniq (step capdb rf merge st a).
+Lemma step_uniq : forall st a, inv13 st -> uniq st -> uniq (step capdb bad rf merge st a).
 Proof.
   intros st a I U. destruct a as [ks|v|v|v| |wu h|wu h|k|k]; simpl.
   - destruct ks; auto. destruct (ascending _ _); auto.
@@ -674,15 +676,15 @@ Proof.
   - destruct (ntags st =? 0); auto.
   - destruct (ntags st =? 0); auto. intros u. rewrite indexes_start_tagging. apply U.
   - destruct k.
-    + destruct (ijob st) as [[caps nx snap [|] cr un]|]; auto.
-      destruct (from_pcap capdb (known st) caps snap) as [[es usednew] allk]. auto.
+    + destruct (ijob st) as [[caps nx snap [|] cr un np]|]; auto.
+      destruct (from_pcap capdb bad (known st) caps snap) as [[es usednew] allk]. auto.
     + destruct (mjob st) as [[off snap [|] mg]|]; auto.
     + destruct (tjob st) as [[snap [|] vv]|]; auto.
   - destruct k.
-    + destruct (ijob st) as [[caps nx snap [|] cr un]|] eqn:Hj; auto.
+    + destruct (ijob st) as [[caps nx snap [|] cr un np]|] eqn:Hj; auto.
       intros u. rewrite indexes_start_merge, indexes_start_tagging.
-      assert (E : forall s1 : state, indexes match skipn (length caps) (queue st) with [] => s1 | _ :: _ => launch_import (skipn (length caps) (queue st)) s1 end = indexes s1).
-      { intros. destruct (skipn (length caps) (queue st)); reflexivity. }
+      assert (E : forall s1 : state, indexes match skipn np (queue st) with [] => s1 | _ :: _ => launch_import (skipn np (queue st)) s1 end = indexes s1).
+      { intros. destruct (skipn np (queue st)); reflexivity. }
       rewrite E. simpl. rewrite occ_app.
       destruct (N.eq_dec (occ u cr) 0) as [Z|Z]; [specialize (U u); lia|].
       assert (P : 0 < occ u (pending_files st)).
@@ -705,10 +707,10 @@ Proof.
       intros u. rewrite indexes_set_used_disk, indexes_start_merge, indexes_start_tagging. apply U.
 Qed.
 
-Theorem run_uniq : forall acts, uniq (fold_left (step capdb rf merge) acts init).
+Theorem run_uniq : forall acts, uniq (fold_left (step capdb bad rf merge) acts init).
 Proof.
   intros acts.
-  assert (G : forall st, inv13 st -> uniq st -> uniq (fold_left (step capdb rf merge) acts st)).
+  assert (G : forall st, inv13 st -> uniq st -> uniq (fold_left (step capdb bad rf merge) acts st)).
   { induction acts; simpl; intros; auto. apply IHacts; [apply step_inv13|apply step_uniq]; auto. }
   apply G; [apply inv13_init; assumption|]. intros u. unfold init. simpl. lia.
 Qed.
